@@ -1,3 +1,4 @@
+from common import guarded
 """C12  Histogram construction accepts exactly the valid edge lists.  Engine K (+RS for the exact edges)."""
 from hist_common import hist_job, hist_const_job, COMMON_META, F, FC
 
@@ -61,11 +62,11 @@ def run(tier, seed):
     lens = [1, 2, 3, 4] if tier == "quick" else [1, 2, 3, 4, 10]
     # with_const_width is float heavy in CBMC (LEN 3: ~300 s, LEN 4: ~760 s): quick covers LEN 1, 2
     cw_lens = [1, 2] if tier == "quick" else [1, 2, 3, 4]
-    obs = hist_job("C12", lens, NAMES[:1], unwind=16, timeout=1500, harness_timeout=600).run()
-    obs += hist_job("C12", cw_lens, NAMES[1:], unwind=16, timeout=3000, harness_timeout=2400).run()
-    obs += hist_const_job("C12", [1, 3], NAMES[:1], unwind=9).run()       # const-generic copy: both tiers (seconds)
-    obs += hist_const_job("C12", cw_lens, NAMES[1:], unwind=9, timeout=3000).run()
-    obs += const_width_ulps_corpus()
+    obs = guarded("C12.engine.hist_job@L64", lambda: hist_job("C12", lens, NAMES[:1], unwind=16, timeout=1500, harness_timeout=600).run())
+    obs += guarded("C12.engine.hist_job@L65", lambda: hist_job("C12", cw_lens, NAMES[1:], unwind=16, timeout=3000, harness_timeout=2400).run())
+    obs += guarded("C12.engine.hist_const_job@L66", lambda: hist_const_job("C12", [1, 3], NAMES[:1], unwind=9).run())       # const-generic copy: both tiers (seconds)
+    obs += guarded("C12.engine.hist_const_job@L67", lambda: hist_const_job("C12", cw_lens, NAMES[1:], unwind=9, timeout=3000).run())
+    obs += guarded("C12.engine.const_width_ulps_corpus@L68", lambda: const_width_ulps_corpus())
     try:
         import c12_rs
         obs += c12_rs.run(tier)
